@@ -153,11 +153,11 @@ int main(int argc, char** argv) {
   }
   // ---------------- (iii) epoch seconds
   if (part == "seconds" || part == "all") {
-    int64_t stride = a.thorough ? 1 : a.getl("stride", 17);
+    int64_t stride = a.getl("stride", 1);   // both tiers: every one of the 2^32-1 values (about 20 s on 16 cores)
     int64_t lo = (int64_t)INT32_MIN + 1, hi = INT32_MAX;
     int64_t span = (hi - lo + 1 + a.nshards - 1) / a.nshards;
     int64_t s0 = lo + span * a.shard, s1 = std::min<int64_t>(hi, s0 + span - 1);
-    int64_t phase = a.thorough ? 0 : (int64_t)(a.seed % stride);
+    int64_t phase = (int64_t)(a.seed % stride);
     uint64_t n = 0, band = 0, distinct_days = 0; int64_t lastday = INT64_MIN;
     auto check = [&](int64_t t64) {
       acetime_t t = (acetime_t)t64;
@@ -192,7 +192,7 @@ int main(int argc, char** argv) {
       }
     };
     for (int64_t t = s0 + phase; t <= s1; t += stride) check(t);
-    if (!a.thorough) {
+    if (stride > 1) {
       // boundaries: +-2 days around 0, the ends, every year start, handled by shard 0..n round-robin
       std::vector<int64_t> centres = {0, lo, hi, (int64_t)-24855 * 86400};
       for (int y = 1932; y <= 2068; y++) centres.push_back((civil::days_from_civil(y, 1, 1) - civil::kEpoch2000Days) * 86400);
